@@ -479,6 +479,170 @@ func verifCheckLabelCandidates(body *hclsyntax.Body, bs *schema.BodySchema, pos 
 	}
 }
 
+// verifSpecBodyItems: what a body may still declare, re-stated from the property: the attributes
+// and block types of the effective schema (static body plus the dependent body db, nil if none)
+// with the typed prefix that can still be declared - attribute not yet written and not read-only,
+// block type below its maximum - plus count / for_each where enabled and not written, plus
+// "dynamic" where dynamic blocks are enabled and the body in force declares block types; a block
+// type that is also an attribute name is offered as the attribute only; sorted by name.
+func verifSpecBodyItems(body *hclsyntax.Body, static, db *schema.BodySchema, prefix string) []string {
+	var out []string
+	add := func(n string) {
+		if !hasPrefixSym(n, prefix) {
+			return
+		}
+		for _, o := range out {
+			if o == n {
+				return
+			}
+		}
+		out = append(out, n)
+	}
+	attrs := map[string]*schema.AttributeSchema{}
+	blocks := map[string]*schema.BlockSchema{}
+	var ext *schema.BodyExtensions
+	for _, b := range []*schema.BodySchema{static, db} {
+		if b == nil {
+			continue
+		}
+		for n, a := range b.Attributes {
+			attrs[n] = a
+		}
+		for n, bl := range b.Blocks {
+			blocks[n] = bl
+		}
+		if b.Extensions != nil {
+			ext = b.Extensions
+		}
+	}
+	if ext != nil && ext.Count {
+		if _, written := body.Attributes["count"]; !written {
+			add("count")
+		}
+	}
+	if ext != nil && ext.ForEach {
+		if _, written := body.Attributes["for_each"]; !written {
+			add("for_each")
+		}
+	}
+	for n, a := range attrs {
+		if a.IsComputed && !a.IsOptional {
+			continue
+		}
+		if _, written := body.Attributes[n]; written {
+			continue
+		}
+		add(n)
+	}
+	if len(attrs) == 0 && static != nil && static.AnyAttribute != nil && prefix == "" {
+		add("name")
+	}
+	declared := func(t string) uint64 {
+		n := uint64(0)
+		for _, b := range body.Blocks {
+			if b.Type == t {
+				n++
+			}
+		}
+		return n
+	}
+	for n, bl := range blocks {
+		if _, clash := attrs[n]; clash {
+			continue
+		}
+		if bl.MaxItems > 0 && declared(n) >= bl.MaxItems {
+			continue
+		}
+		add(n)
+	}
+	if static != nil && static.Extensions != nil && static.Extensions.DynamicBlocks {
+		src := db
+		if src == nil {
+			src = static
+		}
+		if len(src.Blocks) > 0 {
+			add("dynamic")
+		}
+	}
+	// sorted by name
+	for i := 1; i < len(out); i++ {
+		for j := i; j > 0 && out[j-1] > out[j]; j-- {
+			out[j-1], out[j] = out[j], out[j-1]
+		}
+	}
+	return out
+}
+
+// verifCheckBodyCandidates: with the cursor on an attribute name or a block type keyword - at top
+// level or directly inside a top-level block whose dependent bodies are listed for the oracle -
+// the candidates are exactly what that body may still declare, with the text between the start
+// of the name and the cursor as prefix.
+func verifCheckBodyCandidates(body *hclsyntax.Body, static, db *schema.BodySchema, pos hcl.Pos, cs lang.Candidates, depth int) {
+	if static == nil {
+		return
+	}
+	at := verifCursorTag()
+	check := func(name string, start int) {
+		k := verifConcretize(pos.Byte-start, 0, len(name))
+		want := verifSpecBodyItems(body, static, db, name[:k])
+		for _, w := range want {
+			n := 0
+			for _, c := range cs.List {
+				if c.Label == w {
+					n++
+				}
+			}
+			verifAssert(n == 1, "C07:item-the-body-may-still-declare-is-offered-once["+w+"]"+at)
+		}
+		verifAssert(len(cs.List) == len(want), "C07:body-candidates-exactly-what-may-still-be-declared"+at)
+		for j := 1; j < len(cs.List); j++ {
+			verifAssert(cs.List[j-1].Label <= cs.List[j].Label, "C07:body-candidates-sorted"+at)
+		}
+	}
+	for name, attr := range body.Attributes {
+		if verifAnd(attr.NameRange.Start.Byte <= pos.Byte, pos.Byte < attr.NameRange.End.Byte) {
+			check(name, attr.NameRange.Start.Byte)
+			return
+		}
+	}
+	for _, block := range body.Blocks {
+		if verifAnd(block.TypeRange.Start.Byte <= pos.Byte, pos.Byte < block.TypeRange.End.Byte) {
+			known := false
+			for _, b := range []*schema.BodySchema{static, db} {
+				if b != nil {
+					if _, ok := b.Blocks[block.Type]; ok {
+						known = true
+					}
+				}
+			}
+			if known {
+				check(block.Type, block.TypeRange.Start.Byte)
+			}
+			return
+		}
+		if depth == 0 && block.Body != nil && verifAnd(block.OpenBraceRange.End.Byte <= pos.Byte, pos.Byte <= block.CloseBraceRange.Start.Byte) {
+			bsch, ok := static.Blocks[block.Type]
+			if !ok || bsch.Body == nil {
+				return
+			}
+			var dep *schema.BodySchema
+			if len(bsch.DependentBody) > 0 {
+				es := verifDepEntriesOf(block.Type)
+				if es == nil {
+					return
+				}
+				var resolved bool
+				dep, _, resolved = verifSpecDependentBodyResolved(block, bsch, es)
+				if !resolved {
+					return
+				}
+			}
+			verifCheckBodyCandidates(block.Body, bsch.Body, dep, pos, cs, depth+1)
+			return
+		}
+	}
+}
+
 // the seeds whose first block is a "res" block: label completion against the dependent keys
 func verifResSeeds() []int {
 	var out []int
@@ -488,6 +652,21 @@ func verifResSeeds() []int {
 		}
 	}
 	return out
+}
+
+// C07 (G): body candidates on attribute names and block types, every seed, every layout
+func VerifP_C07_BodyCompletion_N() int            { return len(verifSeedList()) }
+func VerifP_C07_BodyCompletion_Name(i int) string { return verifSeedList()[i].name }
+func VerifP_C07_BodyCompletion(i int) {
+	d, _ := verifSeedDecoder(i)
+	pos := verifAnyPos(vf)
+	cs, err := d.CompletionAtPos(context.Background(), vf, pos)
+	if err == nil {
+		if body, ok := d.pathCtx.Files[vf].Body.(*hclsyntax.Body); ok {
+			verifCheckBodyCandidates(body, d.pathCtx.Schema, nil, pos, cs, 0)
+		}
+	}
+	verifReach("end")
 }
 
 func VerifP_C07_LabelCompletion_N() int { return len(verifResSeeds()) }
@@ -936,6 +1115,7 @@ func verifCheckDeclaredTargets(body *hclsyntax.Body, bs *schema.BodySchema, ts r
 						} else {
 							typed++
 							verifCheckExprTargetType(attr.Expr, t)
+							verifCheckElementTargets(attr.Expr, t)
 						}
 					}
 				}
@@ -965,6 +1145,9 @@ func verifCheckDeclaredTargets(body *hclsyntax.Body, bs *schema.BodySchema, ts r
 		for _, t := range ts {
 			if t.Addr.String() == want && t.RangePtr != nil && verifSameRange(*t.RangePtr, attr.SrcRange) {
 				n++
+				if t.Type != cty.NilType {
+					verifCheckElementTargets(attr.Expr, t)
+				}
 			}
 		}
 		verifAssert(n >= 1, "C09:addressable-attribute-has-target-with-its-extent")
@@ -1022,6 +1205,89 @@ func verifCheckBlockTargetType(block *hclsyntax.Block, bsch *schema.BlockSchema,
 			}
 		}
 	}
+}
+
+// verifCheckElementTargets: the nested targets of a written collection are its elements: an object or
+// map item under its written key (plain or quoted name) spans key to value with the key as
+// definition; a list element under its source index spans the element expression. Recursive.
+func verifCheckElementTargets(expr hclsyntax.Expression, t reference.Target) {
+	switch e := expr.(type) {
+	case *hclsyntax.ObjectConsExpr:
+		for _, nt := range t.NestedTargets {
+			if len(nt.Addr) != len(t.Addr)+1 {
+				continue
+			}
+			key := ""
+			switch s := nt.Addr[len(nt.Addr)-1].(type) {
+			case lang.IndexStep:
+				if s.Key.Type() != cty.String {
+					continue
+				}
+				key = s.Key.AsString()
+			case lang.AttrStep:
+				key = s.Name
+			default:
+				continue
+			}
+			found := 0
+			for _, it := range e.Items {
+				name, ok := verifWrittenKey(it.KeyExpr)
+				if !ok || name != key {
+					continue
+				}
+				found++
+				if nt.RangePtr != nil {
+					verifAssert(verifAnd(nt.RangePtr.Start.Byte == it.KeyExpr.Range().Start.Byte, nt.RangePtr.End.Byte == it.ValueExpr.Range().End.Byte), "C09:item-target-spans-key-to-value")
+				}
+				if nt.DefRangePtr != nil {
+					verifAssert(verifSameRange(*nt.DefRangePtr, it.KeyExpr.Range()), "C09:item-target-definition-is-the-written-key")
+				}
+				verifCheckElementTargets(it.ValueExpr, nt)
+			}
+			verifAssert(found >= 1, "C09:item-target-key-is-a-written-key")
+		}
+	case *hclsyntax.TupleConsExpr:
+		for _, nt := range t.NestedTargets {
+			if len(nt.Addr) != len(t.Addr)+1 {
+				continue
+			}
+			s, ok := nt.Addr[len(nt.Addr)-1].(lang.IndexStep)
+			if !ok || s.Key.Type() != cty.Number {
+				continue
+			}
+			bf := s.Key.AsBigFloat()
+			idx64, _ := bf.Int64()
+			idx := int(idx64)
+			verifAssert(idx >= 0 && idx < len(e.Exprs), "C09:element-index-is-a-written-position")
+			if idx >= 0 && idx < len(e.Exprs) {
+				if nt.RangePtr != nil {
+					verifAssert(verifSameRange(*nt.RangePtr, e.Exprs[idx].Range()), "C09:element-target-spans-the-element-at-its-index")
+				}
+				verifCheckElementTargets(e.Exprs[idx], nt)
+			}
+		}
+	}
+}
+
+// verifWrittenKey: the name an object key is written as (plain identifier or quoted literal)
+func verifWrittenKey(k hclsyntax.Expression) (string, bool) {
+	ke, ok := k.(*hclsyntax.ObjectConsKeyExpr)
+	if !ok {
+		return "", false
+	}
+	switch w := ke.Wrapped.(type) {
+	case *hclsyntax.ScopeTraversalExpr:
+		if len(w.Traversal) == 1 {
+			return w.Traversal.RootName(), true
+		}
+	case *hclsyntax.TemplateExpr:
+		if len(w.Parts) == 1 {
+			if lv, ok := w.Parts[0].(*hclsyntax.LiteralValueExpr); ok && lv.Val.Type() == cty.String {
+				return lv.Val.AsString(), true
+			}
+		}
+	}
+	return "", false
 }
 
 // verifCheckExprTargetType: the typed target of an attribute addressable by its expression type
@@ -1140,7 +1406,9 @@ type verifWantOrigin struct {
 // variable for hclsyntax.Variables; the property does not say which reading is right, so the count
 // is not compared on such seeds (inclusion still is)
 func verifSeedHasForExpr(s verifSeed) bool {
-	return s.name == "alst-for"
+	// a for expression: its iterator variables are references to hcl but not declarations the
+	// property speaks about; the count is not compared there (every expected origin still must exist)
+	return strings.Contains(s.src, "for ") && strings.Contains(s.src, " in ")
 }
 
 func verifSeedHasOneOf(s verifSeed) bool {
@@ -1243,7 +1511,7 @@ func verifRefsUnder(expr hclsyntax.Expression, cons schema.Constraint, selfOK bo
 	case schema.Object:
 		if o, ok := expr.(*hclsyntax.ObjectConsExpr); ok {
 			for _, it := range o.Items {
-				key, _, found := rawObjectKey(it.KeyExpr)
+				key, found := verifWrittenKey(it.KeyExpr)
 				if !found {
 					continue
 				}
